@@ -3,6 +3,7 @@ import TacklerModel.Props.C11
 import TacklerModel.Props.C17b
 import TacklerModel.Props.C16
 import TacklerModel.Props.C09
+import TacklerModel.Props.C15
 /-!
 # E2Ec — end-to-end theorems, third part: displayed figures, account selectors, report zone
 
@@ -375,6 +376,59 @@ theorem text_audit_set (cfg : Time.TsCfg) (st st' : Settings) (text : List Char)
       if (C09.uuidsOf (ts.filter tf)).Nodup then .ok ⟨some (C09.specItem alg (ts.filter tf)), ts.filter tf⟩ else .err :=
   loaded_audit_set st st' ts (loaded_of_text cfg st st' text ts hload) ha alg tf
 
+
+/-! ## 3c. C01 — the rejection classes, from journal text (one file or many) -/
+
+/-- the posting-level rejection classes of C01, read off a parse tree: a zero amount (`0`, `0.00`, `-0`); a closing
+    price (`@` or `=`) in the posting's own commodity; a negative unit price; a total price whose sign differs from the
+    amount's -/
+def BadPosting (rp : RawPosting) : Prop :=
+  rp.amount.isZero = true ∨
+  (∃ u cl, rp.unit = some u ∧ u.closing = some cl ∧
+      (match cl with | .unitPrice v => v.comm | .total v => v.comm) = u.comm) ∨
+  (∃ u v, rp.unit = some u ∧ u.closing = some (.unitPrice v) ∧ v.value.isNeg = true) ∨
+  (∃ u v, rp.unit = some u ∧ u.closing = some (.total v) ∧ v.value.isNeg ≠ rp.amount.isNeg)
+
+/-- a parse tree with a bad posting is accepted from no settings state -/
+theorem badPosting_not_accepted (r : RawTxn) (rp : RawPosting) (hrp : rp ∈ r.posts) (hbad : BadPosting rp) :
+    ∀ s t s', acceptTxn s r ≠ .ok (t, s') := by
+  intro s
+  rcases hbad with hz | ⟨u, cl, hu, hcl, hsame⟩ | ⟨u, v, hu, hcl, hneg⟩ | ⟨u, v, hu, hcl, hsign⟩
+  · exact C01.reject_zero_posting s r rp hrp hz
+  · cases cl with
+    | unitPrice v => exact C01.reject_price_same_commodity s r rp hrp u _ hu hcl hsame
+    | total v => exact C01.reject_price_same_commodity s r rp hrp u _ hu hcl hsame
+  · exact C01.reject_negative_unit_price s r rp hrp u v hu hcl hneg
+  · exact C01.reject_total_price_sign s r rp hrp u v hu hcl hsign
+
+/-- **C01 end to end — `text_rejects_bad_posting`.**  A journal text one of whose transactions has a posting in a
+    rejection class (zero amount, price in the posting's own commodity, negative unit price, total price of opposite
+    sign) does not load – from any settings, whatever else the text contains: the journal is rejected as a whole. -/
+theorem text_rejects_bad_posting (cfg : Time.TsCfg) (st : Settings) (text : List Char) (rs : List RawTxn)
+    (hp : parseJournal cfg text = some rs) (r : RawTxn) (hr : r ∈ rs) (rp : RawPosting) (hrp : rp ∈ r.posts)
+    (hbad : BadPosting rp) : ∀ ts st', loadText cfg st text ≠ .ok (ts, st') := by
+  intro ts st' h
+  obtain ⟨rs', acc, hp', _, _, hacc, _, _⟩ := load_inv cfg st st' text ts h
+  rw [hp] at hp'
+  cases hp'
+  unfold acceptJournal at hacc
+  obtain ⟨s₁, t, s₂, hok⟩ := C15.mapMS_ok_all acceptTxn rs st st' acc hacc r hr
+  exact badPosting_not_accepted r rp hrp hbad s₁ t s₂ hok
+
+/-- … and the same for several journal files: one bad posting in any transaction of any file, and nothing is loaded
+    from any of them -/
+theorem files_rejects_bad_posting (cfg : Time.TsCfg) (st : Settings) (files : List (List Char)) (f : List Char)
+    (hf : f ∈ files) (rs : List RawTxn) (hp : parseJournal cfg f = some rs) (r : RawTxn) (hr : r ∈ rs)
+    (rp : RawPosting) (hrp : rp ∈ r.posts) (hbad : BadPosting rp) :
+    ∀ ts st', loadFiles cfg st files ≠ .ok (ts, st') := by
+  intro ts st' h
+  obtain ⟨rs', s₁, ts₁, s₂, hp', hacc⟩ := C15.files_ok_all cfg st st' files ts h f hf
+  rw [hp] at hp'
+  cases hp'
+  unfold acceptJournal at hacc
+  obtain ⟨s₃, t, s₄, hok⟩ := C15.mapMS_ok_all acceptTxn rs s₁ s₂ ts₁ hacc r hr
+  exact badPosting_not_accepted r rp hrp hbad s₃ t s₄ hok
+
 /-! ## 4. Non-vacuity: the sample text of `Props/E2E.lean` through the new theorems -/
 namespace ExC
 open Ex
@@ -420,6 +474,22 @@ example : (((groupCandidates (groupKey .date (.fixed 0)) [t1, t2]).map (·.2)).f
     (((groupCandidates (groupKey .date (.fixed (-36000))) [t1, t2]).map (·.2)).flatten) :=
   (text_zone_regroups_only utc lax0 stAfter sample [t1, t2] sample_loads [t1, t2] (sel_all _) .date .date
     (.fixed 0) (.fixed (-36000))).1
+
+
+/-- `text_rejects_bad_posting` on a concrete text: the second transaction has a total price of opposite sign
+    (`e 1 ACME = -5 EUR`), so nothing of the text loads — although the first transaction alone is fine -/
+def badText : List Char := "2024-01-01\n a 1\n b\n\n2024-01-02\n e 1 ACME = -5 EUR\n f\n".toList
+
+def badR1 : RawTxn := ⟨⟨⟨1704067200000000000, 0⟩, none, none, none, none, none, none⟩,
+  [⟨["a"], ⟨false, 1, 0⟩, none, none⟩], some (["b"], none)⟩
+def badR2 : RawTxn := ⟨⟨⟨1704153600000000000, 0⟩, none, none, none, none, none, none⟩,
+  [⟨["e"], ⟨false, 1, 0⟩, some ⟨"ACME", none, some (.total ⟨⟨true, 5, 0⟩, "EUR"⟩)⟩, none⟩], some (["f"], none)⟩
+
+theorem badText_parses : parseJournal utc badText = some [badR1, badR2] := by decide
+
+example : ∀ ts st', loadText utc lax0 badText ≠ .ok (ts, st') :=
+  text_rejects_bad_posting utc lax0 badText _ badText_parses badR2 (by decide) _ List.mem_cons_self
+    (.inr (.inr (.inr ⟨_, _, rfl, rfl, by decide⟩)))
 
 end ExC
 
